@@ -283,7 +283,7 @@ fn op_operands_mut(op: &mut Op) -> Vec<&mut usize> {
         ExpU64(a, _) | ExpPow2(a, _) | AddConst(a, _) | MulConst(_, a) | ExtGet(a, _) | ExpU64E(a, _) | SplitLe(a, _) | RangeCheck(a, _)
         | HashGet(a, _) => vec![a],
         SplitBase(a, _, _) | LowBits(a, _, _) | SplitLowHigh(a, _, _) => vec![a],
-        AddMany(xs) | MulMany(xs) | MulManyE(xs) | LeSum(xs) | Hash(xs) | HashOrNoop(xs) => xs.iter_mut().collect(),
+        AddMany(xs) | MulMany(xs) | MulManyE(xs) | LeSum(xs) | Hash(xs) | HashOrNoop(xs) | HashM(xs, _, _) => xs.iter_mut().collect(),
         InnerProductE(_, s, ps) => {
             let mut v = vec![s];
             for (a, b) in ps.iter_mut() {
